@@ -258,6 +258,9 @@ func (g *Gen) relsFor(cs []int, not EID) []RelT {
 					t = tw
 				}
 			}
+			if not >= 0 && int(not) < len(g.M.Ents) && g.M.Ents[not].Alive && g.R.Chance(15) {
+				t = not // an entity may be its own relation target
+			}
 			r = append(r, RelT{C: c, T: t})
 		}
 	}
